@@ -596,6 +596,71 @@ class _Canon(ast.NodeTransformer):
         return out
 
     @staticmethod
+    def _filtered_iteration(body, fn):
+        """`for t in (v for v in IT if C): B` (also with the generator bound to a local read only by the loop)
+        ->  `for t in IT: if not C[v := t]: continue; B`"""
+        import copy
+
+        out = []
+        i = 0
+        while i < len(body):
+            st = body[i]
+            gen, skip = None, 0
+            if isinstance(st, ast.For) and isinstance(st.iter, ast.GeneratorExp):
+                gen = st.iter
+            elif (isinstance(st, ast.Assign) and len(st.targets) == 1 and isinstance(st.targets[0], ast.Name) and isinstance(st.value, ast.GeneratorExp) and i + 1 < len(body)
+                  and isinstance(body[i + 1], ast.For) and isinstance(body[i + 1].iter, ast.Name) and body[i + 1].iter.id == st.targets[0].id
+                  and sum(1 for n in ast.walk(fn) if isinstance(n, ast.Name) and n.id == st.targets[0].id) == 2):
+                gen, skip = st.value, 1
+            loop = body[i + skip] if gen is not None else None
+            if gen is not None and len(gen.generators) == 1 and not gen.generators[0].is_async and isinstance(gen.generators[0].target, ast.Name) and isinstance(gen.elt, ast.Name) \
+                    and gen.elt.id == gen.generators[0].target.id and isinstance(loop.target, ast.Name) and not loop.orelse:
+                g = gen.generators[0]
+                v, t = g.target.id, loop.target.id
+
+                class Ren(ast.NodeTransformer):
+                    def visit_Name(self, n):
+                        return ast.copy_location(ast.Name(id=t, ctx=n.ctx), n) if n.id == v else n
+
+                guards = []
+                for c in g.ifs:
+                    test = Ren().visit(copy.deepcopy(c))
+                    neg = test.operand if isinstance(test, ast.UnaryOp) and isinstance(test.op, ast.Not) else ast.UnaryOp(op=ast.Not(), operand=test)
+                    guards.append(ast.copy_location(ast.If(test=neg, body=[ast.copy_location(ast.Continue(), loop)], orelse=[]), loop))
+                loop.iter = g.iter
+                loop.body = guards + loop.body
+                ast.fix_missing_locations(loop)
+                out.append(loop)
+                i += 1 + skip
+                continue
+            out.append(st)
+            i += 1
+        return out
+
+    @staticmethod
+    def _search_loop(body):
+        """`return next((E for t in IT if C), D)`  ->  `for t in IT: if C: return E` followed by `return D`"""
+        out = []
+        for st in body:
+            v = st.value if isinstance(st, ast.Return) else None
+            if (isinstance(v, ast.Call) and isinstance(v.func, ast.Name) and v.func.id == "next" and len(v.args) == 2 and not v.keywords and isinstance(v.args[0], ast.GeneratorExp)
+                    and len(v.args[0].generators) == 1 and not v.args[0].generators[0].is_async):
+                g = v.args[0].generators[0]
+                hit = ast.copy_location(ast.Return(value=v.args[0].elt), st)
+                inner = [hit]
+                if g.ifs:
+                    test = g.ifs[0] if len(g.ifs) == 1 else ast.BoolOp(op=ast.And(), values=list(g.ifs))
+                    inner = [ast.copy_location(ast.If(test=test, body=[hit], orelse=[]), st)]
+                out.append(ast.fix_missing_locations(ast.copy_location(ast.For(target=g.target, iter=g.iter, body=inner, orelse=[]), st)))
+                for n in ast.walk(out[-1].target):
+                    if isinstance(n, ast.Name):
+                        n.ctx = ast.Store()
+                out.append(ast.copy_location(ast.Return(value=v.args[1]), st))
+            else:
+                out.append(st)
+        return out
+
+    @staticmethod
     def _append_form(body):
         """`xs.extend([e])` (a one-element list display)  ->  `xs.append(e)`"""
         for st in body:
@@ -613,7 +678,7 @@ class _Canon(ast.NodeTransformer):
             for f in ("body", "orelse", "finalbody"):
                 b = getattr(sub, f, None)
                 if isinstance(b, list) and b and isinstance(b[0], ast.stmt):
-                    setattr(sub, f, self._fold_body(self._join_branches(self._hoist_else(self._append_form(b))), cnt))
+                    setattr(sub, f, self._fold_body(self._join_branches(self._hoist_else(self._append_form(self._search_loop(self._filtered_iteration(b, node))))), cnt))
             if isinstance(sub, ast.Try):
                 for h in sub.handlers:
                     h.body = self._fold_body(self._join_branches(self._hoist_else(h.body)), cnt)
